@@ -92,6 +92,7 @@ package client
 
 //@ fn (*client).GetCurrentStatus(c, workflow) (st, err)
 //@   props C08 C16
+//@   assert before sock.NewClient [C08,C16,C20 the_run_is_addressed_by_the_socket_of_its_dag_file] arg0 == sock_addr(workflow.Location)
 //@   nullable c
 //@   modifies heap(alloc), ghost sockq.calls, ghost sockq.err, ghost sockq.body, ghost sockq.method, ghost sockq.path, ghost obs.json_st, ghost obs.json_err, ghost obs.json_calls, ghost obs.json_ok, ghost obs.json_last_ok
 //@   ensures [C16 probe_asks_the_status_endpoint] sockq.calls == old(sockq.calls) + 1 && sockq.method == "GET" && sockq.path == "/status"
@@ -103,6 +104,7 @@ package client
 
 //@ fn (*client).currentStatus(c, workflow) (st, err)
 //@   props C08
+//@   assert before sock.NewClient [C08,C16,C20 the_run_is_addressed_by_the_socket_of_its_dag_file] arg0 == sock_addr(workflow.Location)
 //@   nullable c
 //@   modifies heap(alloc), ghost sockq.calls, ghost sockq.err, ghost sockq.body, ghost sockq.method, ghost sockq.path, ghost obs.json_st, ghost obs.json_err, ghost obs.json_calls, ghost obs.json_ok, ghost obs.json_last_ok
 //@   ensures [C08 live_answer_is_reported] sockq.err == nil ==> (st == obs.json_st && err == obs.json_err)
@@ -217,9 +219,18 @@ package client
 //@   modifies ghost cli.rename, ghost cli.rename_old, ghost cli.rename_new
 //@   ensures cli.rename == old(cli.rename) + 1 && cli.rename_old == oldID && cli.rename_new == newID
 
+// Stop asks the run itself to stop: one POST /stop on the control socket of the DAG file.
+//@ fn (*client).Stop(e, workflow) (err)
+//@   props C05 C20
+//@   nullable e
+//@   modifies heap(alloc), ghost sockq.*
+//@   assert before sock.NewClient [C05,C20 the_run_is_addressed_by_the_socket_of_its_dag_file] arg0 == sock_addr(workflow.Location)
+//@   ensures [C05,C20 stop_is_one_post_to_the_stop_endpoint] sockq.calls == old(sockq.calls) + 1 && sockq.method == "POST" && sockq.path == "/stop" && err == sockq.err
+
 // Implementation side (C20).
 //@ fn (*client).UpdateStatus(e, workflow, status) (err)
 //@   props C20
+//@   assert before sock.NewClient [C08,C16,C20 the_run_is_addressed_by_the_socket_of_its_dag_file] arg0 == sock_addr(workflow.Location)
 //@   requires e.dataStore != nil
 //@   modifies heap(alloc), ghost eff.hist, ghost histst.updates, ghost histst.update_loc, ghost histst.update_id, ghost histst.update_status,
 //@            ghost sockq.*, ghost obs.json*
